@@ -8,6 +8,8 @@ vm/vmExpr.go, vm/vmExprFunction.go, vm/vmLetExpr.go and the scope operations of 
 import Anko.Proofs.EvalCur
 import Anko.Proofs.EvalMono
 import Anko.Gen.ScopeFlow
+import Anko.Gen.BindFlow
+import Anko.Props.BindFlowTable
 
 set_option linter.unusedSectionVars false
 set_option linter.unusedSimpArgs false
@@ -247,5 +249,13 @@ theorem every_exit_restores_the_scope :
 theorem scope_entering_functions_are_the_modelled_ones :
     Gen.ScopeFlow.scopeEnteringFunctions = ["runCForStmt", "runForStmt", "runIfStmt", "runLoopStmt", "runModuleStmt", "runSwitchStmt", "runTryStmt"] := by
   decide
+
+/-! ### Where bindings and scopes are made in the source (regenerated: Gen/BindFlow)
+
+Every leaf statement of funcExpr (the function literal: the scope a call gets is a child of the DEFINING scope, parameters are defined in it, the name
+of a named function is bound in the defining scope), runModuleStmt, runVarStmt and runLetsStmt, with the conditions it stands under, is the one
+written down in Props/BindFlowTable next to the model's callFn / execStmt. Any edit of these functions - also a harmless one - breaks this obligation by name; the check then
+searches model and implementation for a failing input (DESIGN.md 13.3). -/
+theorem bindings_are_made_where_modelled : Gen.BindFlow.leaves = Tables.bindFlow := by decide +kernel
 
 end Anko.C04
